@@ -1221,6 +1221,29 @@ def simp(v):
         # getattr(x, "name") is x.name
         if fn == "getattr" and len(args) == 2 and args[1][0] == "const" and isinstance(args[1][1], str) and args[1][1].isidentifier():
             return ("attr", args[0], args[1][1])
+    # map(f, S) / filter(p, S) with f, p a lambda (or a nested one-return def), operator.attrgetter("a") / itemgetter(i):
+    # the generator expressions (f(x) for x in S) / (x for x in S if p(x)) they are equal to
+    if k == "call" and v[1] in (("global", "map"), ("global", "filter")) and len(v[2]) == 2 and not v[3]:
+        f, S = v[2]
+        bv = ("bv", "_m", next(_fresh))
+        body = None
+        if f[0] == "lambda" and len(f[1]) == 1:
+            body = simp(subst(f[2], {f[1][0]: bv}))
+        elif (f[0] == "call" and f[1] in (("global", "attrgetter"), ("global", "itemgetter")) and len(f[2]) == 1 and not f[3]) or \
+                (f[0] == "meth" and f[1] == ("global", "operator") and f[2] in ("attrgetter", "itemgetter") and len(f[3]) == 1 and not f[4]):
+            which = f[1][1] if f[0] == "call" else f[2]
+            arg = (f[2] if f[0] == "call" else f[3])[0]
+            if which == "attrgetter" and arg[0] == "const" and isinstance(arg[1], str) and arg[1].isidentifier():
+                body = ("attr", bv, arg[1])
+            elif which == "itemgetter" and arg[0] == "const":
+                body = simp(("sub", bv, arg))
+        if body is not None:
+            if v[1][1] == "map":
+                return ("comp", "gen", body, ((bv, S, ()),))
+            return ("comp", "gen", bv, ((bv, S, (body,)),))
+    # list(<generator expression>) is the list comprehension (as Flow.e_Call reads it when the argument is written as one)
+    if k == "call" and v[1] in (("global", "list"), ("global", "tuple")) and len(v[2]) == 1 and not v[3] and v[2][0][0] == "comp" and v[2][0][1] in ("gen", "list"):
+        return ("comp", "list") + tuple(v[2][0][2:])
     # "ab" * 3
     if k == "binop" and v[1] == "Mult" and {v[2][0], v[3][0]} == {"const"}:
         a, b = v[2][1], v[3][1]
